@@ -2,8 +2,9 @@
    mapping, increasing ids.  Statements only; every proof is [exact <lemma>].
    MODEL = Model/Rpc.v (bitcoin/rpc.py and x/b2x/lx/b2lx as CPython executes them),
    SPEC = Spec/Rpc.v, constants and the error-class registry from the regenerated Gen/Rpc.v. *)
-From BV Require Import Proofs.Rpc.
-From Coq Require Import QArith Qabs.
+From BV Require Import Proofs.Rpc Proofs.RpcFlocq.
+From Coq Require Import QArith Qabs Reals.
+From Flocq Require Import Core.Core IEEE754.BinarySingleNaN.
 Require Coq.Strings.String.
 Import String.StringSyntax.
 Open Scope Z_scope.
@@ -201,15 +202,10 @@ Proof. exact rn53_spec. Qed.
 Theorem C19_send_ulp_money_range : forall a m e, 1 <= a <= MAX_MONEY -> near a 100000000 m e -> e <= - 28.
 Proof. exact near_money_exp. Qed.
 
-(* FULL STATEMENT (sending): for 0 <= a <= MAX_MONEY the JSON number that
-   sendtoaddress / sendmany transmit for a denotes exactly a/10^8.
-   Proved below for the MODEL of the float step: float(a)/COIN = rn53 a COIN (IEEE-754
-   binary64 division, round-to-nearest-even) and repr = the shortest decimal that rounds
-   back (Model.shortest_dec).  That CPython's float division and float.__repr__ are these two
-   functions is not proved in Coq (no link to Flocq's Bdiv / PrimFloat here); it is checked
-   bit pattern by bit pattern and text by text in the correspondence run (engine 1904).
-   Hence `_partial`. *)
-Theorem C19_send_exact_partial : forall a, 0 <= a <= MAX_MONEY ->
+(* the amount sent, for the MODEL of the float step (Model.rn53 = round-to-nearest-even to
+   53 bits, Model.shortest_dec = the shortest decimal that rounds back, what repr prints):
+   for 0 <= a <= MAX_MONEY the JSON number transmitted denotes exactly a/10^8 *)
+Theorem C19_send_exact : forall a, 0 <= a <= MAX_MONEY ->
   exists c q, sent_amount a = Ok (c, q) /\ (dec_q c q == btc_of_sat a)%Q.
 Proof. exact sent_amount_exact. Qed.
 
@@ -259,8 +255,40 @@ Print Assumptions C19_ids_strictly_increase.
 Print Assumptions C19_send_core_Q.
 Print Assumptions C19_send_half_ulp.
 Print Assumptions C19_send_ulp_money_range.
-Print Assumptions C19_send_exact_partial.
+Print Assumptions C19_send_exact.
 Print Assumptions C19_generated_coin.
+
+(* ====================================================================================
+   the float step against Flocq's IEEE-754 binary64 (uses Reals: the standard axioms of the
+   real numbers appear in Print Assumptions)
+   ==================================================================================== *)
+(* Model.rn53 n d is Flocq's rounding to nearest even in binary64 of the real n/d (normal range) *)
+Theorem C19_send_rn53_is_ieee_rounding : forall n d, 0 < n -> 0 < d ->
+  let (m, e) := rn53 n d in - 1074 < e -> rnd64 (IZR n / IZR d) = (IZR m * bpow radix2 e)%R.
+Proof. exact rn53_is_round. Qed.
+(* float(a)/COIN of the MODEL is BinarySingleNaN.Bdiv mode_NE on the binary64 values of a and COIN *)
+Theorem C19_send_float_div_is_Bdiv : forall a, 1 <= a <= MAX_MONEY ->
+  let (m, e) := rn53 a RPC_COIN in
+  B2R (b64_div (b64_of_Z a) (b64_of_Z RPC_COIN)) = (IZR m * bpow radix2 e)%R.
+Proof. exact float_div_coin_is_Bdiv. Qed.
+(* the sending clause in Flocq's terms, no model of repr involved: d = a / COIN computed in
+   binary64; the decimal a * 10^-8 reads back as d, and every decimal c * 10^q with at most 8
+   places that reads back as d IS a * 10^-8.  Hence whatever shortest round-tripping decimal
+   is printed for d (it cannot be longer than a * 10^-8) denotes exactly a satoshis. *)
+Theorem C19_send_exact_ieee : forall a, 1 <= a <= MAX_MONEY ->
+  let d := B2R (b64_div (b64_of_Z a) (b64_of_Z RPC_COIN)) in
+  d = rnd64 (IZR a / IZR RPC_COIN) /\
+  rnd64 (IZR a * bpow radix10 (- 8)) = d /\
+  (forall c q, - 8 <= q -> rnd64 (IZR c * bpow radix10 q) = d -> c * 10 ^ (q + 8) = a).
+Proof. exact send_flocq. Qed.
+(* the MODEL's read-back test is sound for Flocq's rounding *)
+Theorem C19_send_read_back_sound : forall m e c q, - 1074 < e -> rounds_to m e c q = true ->
+  rnd64 (IZR c * bpow radix10 q) = (IZR m * bpow radix2 e)%R.
+Proof. exact rounds_to_is_round. Qed.
+Print Assumptions C19_send_rn53_is_ieee_rounding.
+Print Assumptions C19_send_float_div_is_Bdiv.
+Print Assumptions C19_send_exact_ieee.
+Print Assumptions C19_send_read_back_sound.
 
 (* last, so that nothing else depends on it: _get_response parses the reply with
    json.loads(..., parse_float=decimal.Decimal) (regenerated flag); without it amounts would
